@@ -290,8 +290,14 @@ def r4_generators(ctx):
     r.violations += tmp.violations
     sites = [
         ("create_locale_type_inner (literals)", ast.fn(ML, "create_locale_type_inner"), "computed_defaults", "defaults.compute"),
-        ("Interpolation::display_impl (new_fn)", ast.fn(MI, "display_impl", impl_self="Interpolation"), "defaults", None),
     ]
+    try:
+        disp_ok = gentext.check_display_new(ctx, r, rid="R4")
+    except _absint.Unknown as u:
+        disp_ok = False
+        r.viol("R4:display_impl#undecided", "display_impl cannot be interpreted on the current code (%s): not decided on this tree (fail closed); the structural clause follows" % str(u)[:300], file=MI)
+    if not disp_ok:
+        sites.append(("Interpolation::display_impl (new_fn)", ast.fn(MI, "display_impl", impl_self="Interpolation"), "defaults", None))
     if not arms_ok:
         sites += [("Interpolation::create_locale_impl", ast.fn(MI, "create_locale_impl", impl_self="Interpolation"), "defaults", None),
                   ("Interpolation::create_locale_string_impl", ast.fn(MI, "create_locale_string_impl", impl_self="Interpolation"), "defaults", None)]
